@@ -458,6 +458,11 @@ class StreamResponse(
         if self._payload_writer is None:
             raise RuntimeError("Cannot call write() before prepare()")
 
+        if self._must_be_empty_body:
+            # HEAD, 1xx, 204 and 304 responses have no body and hence no
+            # framing: anything written would run into the next response.
+            return
+
         await self._payload_writer.write(data)
 
     async def drain(self) -> None:
@@ -479,6 +484,9 @@ class StreamResponse(
             return
 
         assert self._payload_writer is not None, "Response has not been started"
+
+        if self._must_be_empty_body:
+            data = b""
 
         await self._payload_writer.write_eof(data)
         self._eof_sent = True
